@@ -5,6 +5,7 @@ package state
 import (
 	"crypto/ed25519"
 	"net/netip"
+	"time"
 
 	"github.com/mycoria/mycoria/config"
 	"github.com/mycoria/mycoria/m"
@@ -236,4 +237,35 @@ func VfC03Expiry() {
 		vf.Reach("session-kept")
 	}
 	vf.Assert(s2.Signing().Seq().Check(T) != nil, "signed-frame-accepted-again-after-the-session-expired")
+}
+
+// VfC03SenderClock: the receiver accepts signed frames of one source only in
+// strictly increasing timestamp order (VfC03Time); an honest source therefore
+// has to stamp everything it sends to one receiver in increasing order, also
+// when the frames are sealed under different sessions of the sender - a unicast
+// to the receiver (session with that router) and a frame to "all routers" (the
+// session with the routers' group address), as a keep-alive ping followed by an
+// announcement - or raw-signed. K frames, each sealed under either session or raw, whatever the clock
+// reads (any non-decreasing readings, also the same millisecond), delivered in
+// order: "a frame that is not a duplicate and is newer than ... the newest frame
+// accepted so far ... is accepted" - none may be refused.
+func VfC03SenderClock() {
+	K := vf.Param("K")
+	toPeer, toAll := NewTimeSequenceHandler(0), NewTimeSequenceHandler(0)
+	rx := NewTimeSequenceHandler(0)
+	for k := 0; k < K; k++ {
+		var t time.Time
+		switch vf.Choose(3) {
+		case 0:
+			t = toPeer.Next()
+		case 1:
+			t = toAll.Next()
+		default:
+			// a raw-signed frame (peering request, ping to the all-routers address): the stamp
+			// createPeeringRequest / sendPingMsg put on it
+			t = NextSeqTime(DefaultPrecision)
+		}
+		vf.Assert(rx.Check(t) == nil, "in-order-frame-of-an-honest-sender-refused")
+	}
+	vf.Reach("done")
 }
